@@ -71,7 +71,10 @@ EvDiff(ev) ==
     [] OTHER -> {}
 
 Owner(f) == IF f = "view_changed_data" THEN "C18" ELSE "C17"
-Drift(ev) == ev.ev \in {"key", "mouse", "draw"} /\ pre.valid /\ ~Explains(Expected(ev), ev, pre)
+\* flood sessions: InputQueue.tla says the quit key waits exactly when the burst exceeds the 1024 bytes read per notification
+FloodDrift(ev) == ev.ev = "session_end" /\ "burst_bytes" \in DOMAIN ev /\ (ev.delayed = 1) # (ev.burst_bytes > 1024)
+Drift(ev) == \/ ev.ev \in {"key", "mouse", "draw"} /\ pre.valid /\ ~Explains(Expected(ev), ev, pre)
+             \/ FloodDrift(ev)
 
 Judge(ev) ==
   LET d == EvDiff(ev) IN
